@@ -838,7 +838,7 @@ def run(ctx):
         raise MachineryError('vacuous export: no behaviour contains %s' % sorted(missing))
     ctx.extra['spec_behaviours'] = len(beh)
     ctx.progress('leg A: %d distinct behaviours exported by TLC' % len(beh))
-    per = ctx.pick(4, 6)
+    per = ctx.pick(4, 5)
     replays = 0
     blist = list(beh.values())
     rng.shuffle(blist)
@@ -873,7 +873,7 @@ def run(ctx):
 
     # ---- leg B: bigger seeded cases, recorded and judged by TLC -----------------------------------
     seen = {}            # trace digest -> (trace, case)
-    ncases = ctx.pick(800, 12000)
+    ncases = ctx.pick(800, 9000)
     per = ctx.pick(6, 8)
     runs = 0
     for i in range(ncases):
